@@ -43,8 +43,8 @@ def run(job):
     p, layers = build(job)
     out = {"job": job, "layers": [dict(type=L["type"], R=L["R"], rho=L["rho"], static=L["static"]) for L in layers]}
     try:
-        s = solve(p, job["freq"], degree_l=job.get("l", 2), solve_for=tuple(job["solve_for"]), use_kamata=True, integration_method="DOP853",
-                  integration_rtol=1e-9, integration_atol=1e-12, nondimensionalize=job.get("nondim", True), warnings=False)
+        s = solve(p, job["freq"], degree_l=job.get("l", 2), solve_for=tuple(job["solve_for"]), use_kamata=job.get("kamata", True), integration_method=job.get("integ", "DOP853"),
+                  integration_rtol=job.get("rtol", 1e-9), integration_atol=job.get("rtol", 1e-9) * 1e-3, nondimensionalize=job.get("nondim", True), warnings=False)
     except Exception as ex:
         out.update(status="raised", cls=type(ex).__name__, msg=str(ex)[:160])
         return out
@@ -75,8 +75,8 @@ def run(job):
         out["alone_diff"] = {}
         for j, t in enumerate(job["solve_for"]):
             try:
-                s1 = solve(p, job["freq"], degree_l=job.get("l", 2), solve_for=(t,), use_kamata=True, integration_method="DOP853",
-                           integration_rtol=1e-9, integration_atol=1e-12, nondimensionalize=job.get("nondim", True), warnings=False)
+                s1 = solve(p, job["freq"], degree_l=job.get("l", 2), solve_for=(t,), use_kamata=job.get("kamata", True), integration_method=job.get("integ", "DOP853"),
+                           integration_rtol=job.get("rtol", 1e-9), integration_atol=job.get("rtol", 1e-9) * 1e-3, nondimensionalize=job.get("nondim", True), warnings=False)
             except Exception as ex:
                 out["alone_diff"][t] = "raised " + type(ex).__name__
                 continue
